@@ -190,6 +190,9 @@ func execC07(a []string) string {
 	if len(a) < 2 {
 		return "bad-op"
 	}
+	if a[0] == "ted" {
+		return execC07Ted(a)
+	}
 	c := c07Curves[a[1]]
 	if c == nil {
 		return "bad-op"
@@ -260,6 +263,22 @@ func execC07(a []string) string {
 			return "bad-op"
 		}
 		return c07SencFail(c, a[0] == "sencn", a[2] == "1", a[3], a[4:])
+	case "cdec":
+		cp := c07Composites[c.name]
+		if len(a) != 5 || cp == nil {
+			return "bad-op"
+		}
+		var streams [][]byte
+		for _, h := range strings.Split(a[4], ">") {
+			streams = append(streams, c07ParseStream(c.g2 != nil && c.g2.nc == 1, c.fp.bytes/8, h))
+		}
+		return c07Cdec(cp, a[2], a[3], streams)
+	case "cenc":
+		cp := c07Composites[c.name]
+		if len(a) != 6 || cp == nil {
+			return "bad-op"
+		}
+		return c07Cenc(cp, a[2], a[3] == "1", a[4], c07ParseStream(c.g2 != nil && c.g2.nc == 1, c.fp.bytes/8, a[5]))
 	case "sdec":
 		if len(a) != 6 || !c.hasStream {
 			return "bad-op"
@@ -2297,6 +2316,7 @@ func (x *c07Gen) infFlag() byte {
 }
 
 func genC07(g *gen) {
+	genC07Ted(g)
 	for i, name := range c07CurveNames {
 		c := c07Curves[name]
 		x := &c07Gen{g: g, c: c}
@@ -2309,6 +2329,7 @@ func genC07(g *gen) {
 		}
 		if c.hasStream {
 			x.streamOps(i == 0)
+			x.compositeOps()
 		}
 	}
 }
